@@ -7,6 +7,8 @@ VERUS_UNITS = {
     "V-adaptors": "v_adaptors",
     "V-lexer": "v_lexer",
     "V-strslice": "v_strslice",
+    "V-bind": "v_bind",
+    "V-objdefaults": "v_objdefaults",
     "V-index": "v_small:UNIT_INDEX",
     "V-prec": "v_small:UNIT_PREC",
     "V-debuginfo": "v_small:UNIT_DEBUGINFO",
@@ -15,13 +17,15 @@ VERUS_UNITS = {
 PROPERTIES = {
     "C01": {"verus": ["V-frame", "V-range", "V-index", "V-prec"], "kani": ["K-number"]},
     "C05": {"verus": ["V-frame"], "kani": ["K-emit"]},
-    "C06": {"verus": ["V-frame", "V-vmproto", "V-range", "V-lexer", "V-cursors", "V-adaptors", "V-strslice", "V-index", "V-debuginfo"], "kani": ["K-number", "K-emit", "K-strslice"]},
+    "C06": {"verus": ["V-frame", "V-vmproto", "V-range", "V-lexer", "V-cursors", "V-adaptors", "V-strslice", "V-index", "V-debuginfo", "V-bind"], "kani": ["K-number", "K-emit", "K-strslice"]},
+    "C02": {"verus": ["V-bind"], "kani": []},
     "C04": {"verus": ["V-vmproto"], "kani": []},
     "C07": {"verus": ["V-vmproto"], "kani": []},
     "C08": {"verus": ["V-vmproto"], "kani": []},
     "C09": {"verus": ["V-lexer"], "kani": []},
     "C12": {"verus": ["V-vmproto", "V-debuginfo"], "kani": []},
     "C13": {"verus": ["V-range", "V-cursors", "V-adaptors"], "kani": []},
+    "C17": {"verus": ["V-objdefaults"], "kani": []},
     "C14": {"verus": ["V-strslice"], "kani": ["K-number", "K-strslice"]},
     "C15": {"verus": ["V-strslice"], "kani": ["K-strslice"]},
 }
